@@ -5,6 +5,7 @@ Lemmas/Refine.lean (whose results supply what a sub-evaluation selected).
 -/
 import JPV.Calls
 import JPV.Lemmas.Refine
+import JPV.Lemmas.DenBasic
 namespace JPV
 namespace CL
 open Impl TSem Calls
@@ -931,7 +932,7 @@ theorem calls_append (env : Env) (fns : List N) : ∀ (pre : List N), fnFree pre
 /-! ### support for the C14 corollaries -/
 
 theorem flatMap_opt {α β : Type} (f : α → Option β) : ∀ (l : List α),
-    l.flatMap (fun v => match f v with | some r => [r] | none => []) = l.filterMap f
+    l.flatMap (fun v => (f v).toList) = l.filterMap f
   | [] => rfl
   | a :: l => by
     rw [List.flatMap_cons, flatMap_opt f l, List.filterMap_cons]
@@ -968,7 +969,7 @@ theorem wfChain_append (env : Env) : ∀ (a b : List N), wfChain env (a ++ b) = 
   | n :: a, b => by simp [wfChain, wfChain_append env a b, Bool.and_assoc]
 
 theorem den_ffn_last (env : Env) (i : Info) (name : String) (f : Val → Option Val) (hf : env.ffn name = some f)
-    (root v : Val) : den env [.ffn i name] root v = (match f v with | some r => [r] | none => []) := by
+    (root v : Val) : den env [.ffn i name] root v = (f v).toList := by
   rw [den_ffn_one env i name f hf]
   cases f v <;> simp [den]
 
@@ -1017,7 +1018,7 @@ theorem retrieve_afn_fail {env : Env} {rest param : List N} (i : Info) (name : S
 
 theorem ffnArgs_chain_left (fname gname : String) (hne : fname ≠ gname) (ff : Val → Option Val) : ∀ (L : List Val),
     ffnArgs fname (L.flatMap (fun v => Call.ffn fname v ::
-      (match ff v with | some r => [Call.ffn gname r] | none => []))) = L
+      ((ff v).map (fun r => Call.ffn gname r)).toList)) = L
   | [] => rfl
   | v :: L => by
     have ih := ffnArgs_chain_left fname gname hne ff L
@@ -1027,7 +1028,7 @@ theorem ffnArgs_chain_left (fname gname : String) (hne : fname ≠ gname) (ff : 
 
 theorem ffnArgs_chain_right (fname gname : String) (hne : fname ≠ gname) (ff : Val → Option Val) : ∀ (L : List Val),
     ffnArgs gname (L.flatMap (fun v => Call.ffn fname v ::
-      (match ff v with | some r => [Call.ffn gname r] | none => []))) = L.filterMap ff
+      ((ff v).map (fun r => Call.ffn gname r)).toList)) = L.filterMap ff
   | [] => rfl
   | v :: L => by
     have ih := ffnArgs_chain_right fname gname hne ff L
